@@ -29,4 +29,6 @@ package items
 //@ requires IC != nil && Goto != nil
 //@ ensures [C09,C01,C02,C06] old(IC.GoToMap[Goto.Sym]) != nil ==> n == 0 && IC.GoTo == old(IC.GoTo)
 //@ ensures [C09,C01,C02,C06] old(IC.GoToMap[Goto.Sym]) == nil ==> n == 1 && len(IC.GoTo) == old(len(IC.GoTo)) + 1 && IC.GoTo[old(len(IC.GoTo))] == Goto && IC.GoToMap[Goto.Sym] == Goto
+//@ ensures [C09,C01,C02,C06] forall s *symbol.Symbol :: s != Goto.Sym ==> IC.GoToMap[s] == old(IC.GoToMap[s])
+//@ ensures [C09,C01,C02,C06] old(IC.GoToMap[Goto.Sym]) == nil ==> (forall k int :: 0 <= k && k < old(len(IC.GoTo)) ==> IC.GoTo[k] == old(IC.GoTo[k]))
 //@ modifies IC.GoTo, IC.GoToMap
